@@ -7,7 +7,9 @@ Designs (TLC, all interleavings within the bounds, VIEW without the history vari
   KeyFetchPool.tla    keyring.go            explicit worker pool (job queue of capacity Q filled by the caller, then W
                                             workers): result = union of the per-server successes, deadlock freedom
                                             and termination for Q = #servers; Q < #servers deadlocks (sanity cfg)
-  TransportCache.tla  fclient/client.go     one transport per TLS name, never half-initialised, bounded retries
+  TransportCache.tla  fclient/client.go     one transport per TLS name, every caller of a name is handed the cached one
+                                            (split lookup/create refuted in TransportCache_split.cfg), never
+                                            half-initialised, bounded retries
   LazyID.tla          eventV2.go            NoDataRace with an explicit happens-before relation (the design with
                                             an atomic / eager cache holds; the code as it is does not)
 spec -> code (deterministic, -race build): TLC behaviours of the *_gen wrappers are replayed step by step against
@@ -189,6 +191,8 @@ def run(ctx):
     if not quick:
         ctx.tlc("TransportCache", "TransportCache_thorough.cfg")
     ctx.tlc("TransportCache", "TransportCache_live.cfg")
+    # lookup and create as two critical sections without a second look: callers of one name get different transports
+    _expect_violation(ctx, "TransportCache", "TransportCache_split.cfg", "CallersShareTheCachedTransport")
 
     ctx.tlc("LazyID", "LazyID_atomic.cfg")
     ctx.tlc("LazyID", "LazyID_eager.cfg")
@@ -244,6 +248,10 @@ def run(ctx):
             [{"case": "dns", "k": k, "rounds": 300 if quick else 5000, "size": sz, "hosts": 4, "seed": ctx.seed * 10 + sz} for sz in (1, 2, 3)])
     _stress(ctx, "getTransport / reaper on one transport cache",
             [{"case": "transport", "k": k, "rounds": 200 if quick else 5000, "seed": ctx.seed}])
+    # first use of a TLS name by several callers at once: the model's sequential reference (CallersShareTheCachedTransport)
+    # on the real cache.  getTransport is one critical section, so no gate can force miss/miss/create/create: sampled.
+    _stress(ctx, "concurrent first getTransport of fresh TLS names (all callers must share the cached transport)",
+            [{"case": "transport1", "k": 16, "rounds": 6000 if quick else 40000, "seed": ctx.seed}])
 
     ctx.exhaustive = False
     ctx.notes["rule"] = (
